@@ -68,8 +68,8 @@ package atree
 
 //@ func (a *Array) Set(index, value) (r, err)  serves C10 C11
 //@   requires value != nil && a.Storage != nil
-//@   ensures[C11] err == nil && contV(value) ==> has(a.mutableElementIndex, vvid(unwV(value))) && a.mutableElementIndex[vvid(unwV(value))] == index
-//@   ensures[C11] err == nil && r != nil && !is(r, WrapperStorable) && cvid(r) != emptyValueID && (!contV(value) || cvid(r) != vvid(unwV(value))) ==> !has(a.mutableElementIndex, cvid(r))
+//@   ensures[C10 C11] err == nil && contV(value) ==> has(a.mutableElementIndex, vvid(unwV(value))) && a.mutableElementIndex[vvid(unwV(value))] == index
+//@   ensures[C10 C11] err == nil && r != nil && !is(r, WrapperStorable) && cvid(r) != emptyValueID && (!contV(value) || cvid(r) != vvid(unwV(value))) ==> !has(a.mutableElementIndex, cvid(r))
 //@   modifies heap, ghost.sto, ghost.stored, ghost.touched, ghost.notified, alloc
 
 //@ func (a *Array) Remove(index) (r, err)  serves C10 C11
